@@ -6,7 +6,7 @@ P="$(readlink -f "$1")"; shift
 HERE="$(cd "$(dirname "$0")/.." && pwd)"
 S=/tmp/seedrepo.$$
 git -C /repo worktree add -q --detach "$S" HEAD || exit 2
-trap 'git -C /repo worktree remove --force "$S" >/dev/null 2>&1; /venv/bin/python "$HERE/tools/gen_consts.py" /repo >/dev/null 2>&1' EXIT INT TERM
+trap 'git -C /repo worktree remove --force "$S" >/dev/null 2>&1' EXIT INT TERM
 git -C "$S" apply "$P" || { echo "patch does not apply"; exit 2; }
 for c in "$@"; do
   out="$(VERIF_REPO="$S" "$HERE/bin/check" "$c" quick 2>&1)"; rc=$?
